@@ -137,9 +137,8 @@ R.contract(
 # sent and nothing changes - checked BEFORE any pending close is flushed
 R.contract(
     "QuicConnection.datagrams_to_send@end_states",
-    region={"anchor": "network_path = self._network_paths[0]", "span": 2},
+    region={"anchor": "if not self._network_paths:", "span": 3},
     params={"now": "float"},
-    assume_pre=["len(self._network_paths) > 0"],
     returns="list[Any]",
     ensures=[
         "implies(in_end_state(old(self._state)), same(self._events, old(self._events)) and self._state == old(self._state) and self._close_at == old(self._close_at) and self._close_pending == old(self._close_pending))",
